@@ -79,6 +79,7 @@ def run(ctx, built):
     stream_main_column(ctx)
     import e2e_streams as ES
     ES.stream_sampleD(ctx, built, ctx.scale(10, 100))
+    ES.stream_sampleDS(ctx, built, ctx.scale(8, 80))
     # the plan is a function of its inputs in every interpreter: the default-strategy plans (full and sampled forest, main column by name / index) across
     # fresh processes with different string-hash seeds
     import importlib
